@@ -3,10 +3,10 @@ CONSTANTS
   Slots = {"s1", "s2"}
   MaxCalls = 5
   CopyLists = TRUE
-  LocalClusters = FALSE
+  LocalClusters = TRUE
   RefreshParams = TRUE
   OwnScalers = TRUE
-  CopyOnHandOut = TRUE
+  CopyOnHandOut = FALSE
   KeyedMemo = TRUE
   RejectKeeps = TRUE
 INVARIANT FitRepeatable
